@@ -10,6 +10,19 @@ CHECKS = {
                      "'return any minimum-cost sequence'; every record of the real kernel (3 execution modes, scalar/vector beta forms) is "
                      "accepted only if it is a step of that WHAT action, with TLC itself computing the minimum over K^T sequences.",
                 note="integer/dyadic tables (exact in float64) with entries < 2^21; forward-DP oracle (model-checked equal to brute force) when K^T > 1024"),
+    "C08": dict(level="model_checking", design="6/C08", technique="TLA+ spec (Repopulate/RepopulateImpl) model-checked with TLC; every TLC-enumerated behaviour replayed into the real code and validated by a TLC trace spec",
+                text="TLC checks exhaustively (all size vectors, all spread rankings, several K and m) that a code-shaped model of the donor loop refines the "
+                     "one-step WHAT relation that states C08 and that the wrong-end pop() branch is unreachable; every terminal behaviour TLC enumerates is "
+                     "rebuilt as a real ModelState and the real function's outcome must be a step of the WHAT relation (which members move is free).",
+                note="cluster spread realised as c*I covariances with distinct c; quick samples 5000 of the enumerated behaviours (stratified), thorough replays all"),
+    "C10": dict(level="model_checking", design="6/C10", technique="TLA+ spec (Stacking/StackOps) model-checked with TLC + TLC trace validation of the real helpers on bit-pattern token arrays",
+                text="The stacking/concatenation/split/pad pipeline is a TLA+ state machine whose invariants (no row mixes series, rows are windows, pad-after-split restores lengths) TLC checks on all "
+                     "small tuples of series; the real helpers are run on arrays with pairwise distinct 64-bit cells for every shape in range and TLC compares each output cell's source with the specification's index map.",
+                note="float64 inputs; signalling NaNs excluded; token map computed by the harness from bit patterns (projection kind P-tok)"),
+    "C11": dict(level="model_checking", design="6/C11", technique="TLA+ spec (IndexMaps/IndexOps) theorems evaluated exhaustively by TLC + TLC trace validation of every helper output in shuffled call histories",
+                text="TLC evaluates, for every size in the property's finite range, that the closed-form index equals the row-major rank by definition and that the Toeplitz classes partition the upper triangle; "
+                     "every real helper output for the same range (called in interleaved shuffled order, because the helpers are memoised) is compared by TLC with the specification.",
+                note="quick covers n<=60 plus {97,128,150} and N<=6,W<=8 plus three large shapes; thorough covers the whole range n<=150, N<=10, W<=14; round trips use finite normal token values (reinflation does (u+u^T)-diag(u) arithmetic)"),
 }
 
 PENDING_REASON = "check not built yet in this round (planned in DESIGN.md section 6); not claimed"
